@@ -105,6 +105,20 @@ func addExtras(dir string) {
 	for _, n := range []string{"sp ace.txt", "unié.txt", "per%cent", "plus+sign", "q?mark", "semi;colon", "hash#tag", "a:b", "back\\slash", "UPPER"} {
 		writeFile(filepath.Join(dir, n), []byte("odd name "+n+"\n"))
 	}
+	// tiles whose index needs xNNN path levels (a log beyond 256,000 entries): the route must classify them as it does
+	// the first thousand (seed C19-6: classification by directory name instead of the parsed coordinate)
+	big := []string{"tile/data/x001/234", "tile/data/x001/234.p/17", "tile/names/x001/234", "tile/names/x012/x345/678.p/5",
+		"tile/0/x001/234", "tile/2/x001/000.p/1"}
+	if strings.Contains(dir, "mirror") {
+		big = append(big, "tile/entries/x001/234", "tile/entries/x001/234.p/9")
+	}
+	for _, p := range big {
+		body := []byte("big-index tile " + p + "\n")
+		if !strings.HasPrefix(p, "tile/0/") && !strings.HasPrefix(p, "tile/2/") {
+			body = gz(string(body))
+		}
+		writeFile(filepath.Join(dir, filepath.FromSlash(p)), body)
+	}
 	os.Symlink("checkpoint", filepath.Join(dir, "link-file"))
 	os.Symlink("notes", filepath.Join(dir, "link-dir"))
 	os.Symlink("../outside.txt", filepath.Join(dir, "link-out"))
